@@ -131,28 +131,30 @@ example : (inferOrNode [["c"], ["c", "a"]]
 /-- **C06, the OR inference over the whole tree** (`get_extended_or_gates_from_process_tree` = `inferOrAll`, the
 recursion: the node first, then its new children, to any depth and with any fuel).  Let the miner's tree `t` name
 every event once (`NE t.labels` without repetition), let no observed set contain the empty name, and let `t` satisfy the
-decidable condition `wfT false`: at every parallel node with optional branches `X(tau, …)` no mandatory child can
+decidable condition `wfT false F`: at every parallel node with optional branches `X(tau, …)` no mandatory child can
 produce the empty set (`canEmpty`, a sound test) and mandatory children share no label with the optional branches —
-the hypotheses of the per-node theorem — and, below the top, such a node has a mandatory child.  Then the rewritten
+the hypotheses of the per-node theorem — and such a node has a mandatory child unless it is never asked for the empty
+set: it is at the top, or below choices only, or every observed set shows one of its events (otherwise the rewritten
+node `O(r…)` would have to produce the empty set, and cannot).  Then the rewritten
 tree produces every non-empty observed set that `t` produces.  The check evaluates `wfT` / `ND` on every real raw tree
 and reports how many meet the hypotheses; the others are judged by execution only.  (`Lemmas/InferOrAll.lean`: a
 relation `Good` — produces every non-empty projection of an observed set, keeps the empty set, adds no label — is
 a congruence for `X`, `+`, `O` nodes over trees with distinct names, holds for one rewritten node by
 `or_inference_tree_sound_below`, and composes along the recursion by induction on the fuel.) -/
 theorem or_inference_all_sound (F : List (List String)) (hF : ∀ s0 ∈ F, "" ∉ s0) (fuel : Nat) (t : PTree)
-    (hw : wfT false t = true) (hnd : (NE t.labels).Nodup)
-    (s : List String) (hs : s ∈ F) (hne : s ≠ []) (hraw : t.sem s) : (inferOrAll F fuel t).sem s :=
-  (inferOrAll_goodS F hF fuel false t hw hnd).pos s hne ⟨s, hs, fun _ _ => Iff.rfl⟩ hraw
+    (hw : wfT false F t = true) (hnd : (NE t.labels).Nodup)
+    (s : List String) (hs : s ∈ F) (hne : s ≠ []) (hraw : t.sem s) : (inferOrAll F fuel t).sem s := by
+  exact (inferOrAll_goodS F hF fuel false t hw hnd).sem s (Or.inl hne) ⟨s, hs, fun _ _ => Iff.rfl⟩ hraw
 
 /-- non-vacuity: `+(c, X(tau, +(d, X(tau, a))))` — an optional branch holding a parallel node with an optional branch
 of its own — meets the hypotheses -/
 example :
     let t : PTree := .node .and [.leaf "c", .node .xor [.tau, .node .and [.leaf "d", .node .xor [.tau, .leaf "a"]]]]
-    wfT false t = true ∧ (NE t.labels).Nodup ∧
-      ∀ s0 ∈ [["c"], ["c", "d"], ["c", "d", "a"]], "" ∉ s0 := by decide +kernel
+    let F := [["c"], ["c", "d"], ["c", "d", "a"]]
+    wfT false F t = true ∧ (NE t.labels).Nodup ∧ ∀ s0 ∈ F, "" ∉ s0 := by decide +kernel
 
-/-- **the condition below the top is needed**: `+(c, +(X(tau,a), X(tau,b)))` — a parallel node all of whose children
-are optional, below the top — fails `wfT`, and there the recursion (of the model, and of the real function: the C06
+/-- **the last condition is needed**: `+(c, +(X(tau,a), X(tau,b)))` with the observed `{c}` — a parallel node all of
+whose children are optional, and an observed set that shows none of its events — fails `wfT`, and there the recursion (of the model, and of the real function: the C06
 check replays this tree through `get_extended_or_gates_from_process_tree`) is unsound: the inner node becomes
 `O(a, b)`, which cannot produce the empty set, so the rewritten tree `+(c, O(a, b))` no longer admits the observed
 `{c}`, which the raw tree produces.  The miner is not known to emit such a tree (none in the domain, none among the
@@ -160,7 +162,7 @@ observed families of a run). -/
 example :
     let t : PTree := .node .and [.leaf "c", .node .and [.node .xor [.tau, .leaf "a"], .node .xor [.tau, .leaf "b"]]]
     let F := [["c"], ["a", "c"], ["b", "c"], ["a", "b", "c"]]
-    wfT false t = false ∧
+    wfT false F t = false ∧
     (inferOrAll F 5 t).toGate = some (.node .and [.leaf "c", .node .or [.leaf "a", .leaf "b"]]) ∧
     admits (.node .and [.leaf "c", .node .or [.leaf "a", .leaf "b"]]) ["c"] = false := by
   refine ⟨by decide +kernel, ?_, by decide +kernel⟩
@@ -175,8 +177,9 @@ set the tree produced before.  (`Lemmas/MissingAndAll.lean`: one rebuilt gate st
 position by position, carries it through the recursion.) -/
 theorem missing_and_all_sound (F : List (List String)) (hF : ∀ s0 ∈ F, "" ∉ s0) (hFnd : ∀ s0 ∈ F, s0.Nodup)
     (fuel : Nat) (t : PTree) (hnd : (NE t.labels).Nodup) (o : PTree) (ho : o ∈ missingAnd fuel F t)
-    (s : List String) (hs : s ∈ F) (hne : s ≠ []) (hraw : t.sem s) : o.sem s :=
-  (missingAnd_good F hF hFnd fuel t hnd o ho).pos s hne ⟨s, hs, fun _ _ => Iff.rfl⟩ hraw
+    (s : List String) (hs : s ∈ F) (hne : s ≠ []) (hraw : t.sem s) : o.sem s := by
+  have _ := hne
+  exact (missingAnd_good F hF hFnd fuel t hnd o ho).sem s ⟨s, hs, fun _ _ => Iff.rfl⟩ hraw
 
 /-- non-vacuity: `X(e, O(a, b, c))` with the observations `{e} {a,b} {c} {a,b,c}` has an outcome (the OR gate is
 rebuilt as `O(c, +(a,b))` or left alone), names every event once, and produces `{a,b}` -/
@@ -188,7 +191,7 @@ example :
 /-- **C06, the repository's whole post-processing** (`reduce_process_tree_to_preferred_logic_gates` = `postProcess`:
 the OR inference over the whole tree, the defunct-OR filter with its iteration by position over the list it mutates,
 the AND recovery under every choice of the cover step).  For **every** tree of the miner that names every event once
-and passes the decidable test `wfT false`, and every family of observed sets without repetitions or empty names:
+and passes the decidable test `wfT false F`, and every family of observed sets without repetitions or empty names:
 **every** outcome of the post-processing produces every non-empty observed set that the miner's tree produces.
 So the first sentence of the property holds for `calculate_logic_gates` whenever the miner's raw tree is itself sound
 and well-formed — what remains outside the proof is pm4py's miner (its raw trees are taken as data; the check
@@ -196,20 +199,20 @@ evaluates the hypotheses on each of them) and the trees failing `wfT`, where the
 unsound (example above) and only execution decides.  The model `postProcess` is compared with the real functions on
 the real raw trees of every run, up to the order of children. -/
 theorem post_process_sound (F : List (List String)) (hF : ∀ s0 ∈ F, "" ∉ s0) (hFnd : ∀ s0 ∈ F, s0.Nodup)
-    (t : PTree) (hw : wfT false t = true) (hnd : (NE t.labels).Nodup) (o : PTree) (ho : o ∈ postProcess F t)
+    (t : PTree) (hw : wfT false F t = true) (hnd : (NE t.labels).Nodup) (o : PTree) (ho : o ∈ postProcess F t)
     (s : List String) (hs : s ∈ F) (hne : s ≠ []) (hraw : t.sem s) : o.sem s := by
   unfold postProcess at ho
   have g1 := inferOrAll_goodS F hF 50 false t hw hnd
   have g2 := (filter_good F hF 200).1 _ (g1.nd hnd)
   have g3 := missingAnd_good F hF hFnd 50 _ (g2.nd (g1.nd hnd)) o ho
-  exact ((g1.trans g2).trans g3).pos s hne ⟨s, hs, fun _ _ => Iff.rfl⟩ hraw
+  exact ((g1.trans g2).trans g3).sem s (Or.inl hne) ⟨s, hs, fun _ _ => Iff.rfl⟩ hraw
 
 /-- **… in the judge's semantics**: if moreover the outcome holds no silent leaf (`noTau`; then it is a gate tree `g`),
 the executable judge that decides every tree a check sees — `admits`, through `outcomes` and `family` — admits the
 observed set.  (`Lemmas/Bridge.lean`: `sem_admits`, by mutual induction over `X`, `+`, `O` nodes: picks from the
 children's outcome families are outcomes of the product, selections are non-empty sub-lists.) -/
 theorem post_process_admits (F : List (List String)) (hF : ∀ s0 ∈ F, "" ∉ s0) (hFnd : ∀ s0 ∈ F, s0.Nodup)
-    (t : PTree) (hw : wfT false t = true) (hnd : (NE t.labels).Nodup) (o : PTree) (ho : o ∈ postProcess F t)
+    (t : PTree) (hw : wfT false F t = true) (hnd : (NE t.labels).Nodup) (o : PTree) (ho : o ∈ postProcess F t)
     (hno : noTau o = true) (g : Gate) (hg : o.toGate = some g)
     (s : List String) (hs : s ∈ F) (hne : s ≠ []) (hraw : t.sem s) : admits g s = true :=
   sem_admits o g hno hg s (post_process_sound F hF hFnd t hw hnd o ho s hs hne hraw)
@@ -217,15 +220,16 @@ theorem post_process_admits (F : List (List String)) (hF : ∀ s0 ∈ F, "" ∉ 
 /-- … and the defunct-OR filter alone, for any tree with distinct names -/
 theorem filter_defunct_sound (F : List (List String)) (hF : ∀ s0 ∈ F, "" ∉ s0) (fuel : Nat) (t : PTree)
     (hnd : (NE t.labels).Nodup) (s : List String) (hs : s ∈ F) (hne : s ≠ []) (hraw : t.sem s) :
-    (filterDefunct fuel t).sem s :=
-  ((filter_good F hF fuel).1 t hnd).pos s hne ⟨s, hs, fun _ _ => Iff.rfl⟩ hraw
+    (filterDefunct fuel t).sem s := by
+  have _ := hne
+  exact ((filter_good F hF fuel).1 t hnd).sem s ⟨s, hs, fun _ _ => Iff.rfl⟩ hraw
 
 /-- non-vacuity: the raw tree `+(c, X(tau, +(d, X(tau, a))))` with the observations `{c} {c,d} {c,d,a}` meets every
 hypothesis of `post_process_sound` -/
 example :
     let t : PTree := .node .and [.leaf "c", .node .xor [.tau, .node .and [.leaf "d", .node .xor [.tau, .leaf "a"]]]]
     let F := [["c"], ["c", "d"], ["c", "d", "a"]]
-    wfT false t = true ∧ (NE t.labels).Nodup ∧ (∀ s0 ∈ F, "" ∉ s0) ∧ (∀ s0 ∈ F, s0.Nodup) := by decide +kernel
+    wfT false F t = true ∧ (NE t.labels).Nodup ∧ (∀ s0 ∈ F, "" ∉ s0) ∧ (∀ s0 ∈ F, s0.Nodup) := by decide +kernel
 
 /-- the executable test of the model (`checkIsOr`, compared with the real function on generated trees) is that
 decision on the labels of the subtrees -/
